@@ -6,20 +6,32 @@ Import ListNotations.
 Open Scope N_scope.
 
 (* --- what the extractor found in /repo -------------------------------------------------------- *)
-(* the names given to Pack and Unpack in the three methods of each package *)
-Lemma provider_registry_names :
+(* the names given to Pack and Unpack in the three methods of each package are the model's *)
+Definition the_one (l : list bytes) : bytes := match l with [a] => a | _ => [] end.
+
+Lemma provider_registry_extracted :
   provider_registry =
-  {| r_register := bos "registerAndStake";
-     r_min := bos "minStake"; r_min_unpack := bos "minStake";
-     r_stake := bos "checkStake"; r_stake_unpack := bos "checkStake" |}.
+  {| r_register := the_one c11_prov_register_pack;
+     r_min := the_one c11_prov_min_pack; r_min_unpack := the_one c11_prov_min_unpack;
+     r_stake := the_one c11_prov_stake_pack; r_stake_unpack := the_one c11_prov_stake_unpack |}.
 Proof. reflexivity. Qed.
 
-Lemma bidder_registry_names :
+Lemma bidder_registry_extracted :
   bidder_registry =
-  {| r_register := bos "prepay";
-     r_min := bos "minAllowance"; r_min_unpack := bos "minAllowance";
-     r_stake := bos "getAllowance"; r_stake_unpack := bos "getAllowance" |}.
+  {| r_register := the_one c11_bid_register_pack;
+     r_min := the_one c11_bid_min_pack; r_min_unpack := the_one c11_bid_min_unpack;
+     r_stake := the_one c11_bid_stake_pack; r_stake_unpack := the_one c11_bid_stake_unpack |}.
 Proof. reflexivity. Qed.
+
+(* exactly one Pack (and one Unpack) in each method, with these names *)
+Lemma extracted_call_sites :
+  c11_prov_register_pack = [bos "registerAndStake"] /\
+  c11_prov_min_pack = [bos "minStake"] /\ c11_prov_min_unpack = [bos "minStake"] /\
+  c11_prov_stake_pack = [bos "checkStake"] /\ c11_prov_stake_unpack = [bos "checkStake"] /\
+  c11_bid_register_pack = [bos "prepay"] /\
+  c11_bid_min_pack = [bos "minAllowance"] /\ c11_bid_min_unpack = [bos "minAllowance"] /\
+  c11_bid_stake_pack = [bos "getAllowance"] /\ c11_bid_stake_unpack = [bos "getAllowance"].
+Proof. repeat split; reflexivity. Qed.
 
 Lemma provider_signatures :
   method_sig (r_register provider_registry) [] = bos "registerAndStake()" /\
@@ -280,6 +292,20 @@ Section Facts.
        Some ([ECall (stake_req addr)], ANum (match a with CErr => None | CBytes b => decode_uint256 b end))).
   Proof.
     split; [intros a H|intros addr a H]; rewrite session_nth, H; reflexivity.
+  Qed.
+  (* stake / prepay calls on one object: each carries its own amount, whatever the others do *)
+  Lemma session_register_stateless qs n amount s w :
+    nth_error qs n = Some (QRegister amount s w) ->
+    exists t o,
+      nth_error (session kec cfg reg qs) n = Some (t, AReg o) /\
+      sends t = [the_send amount] /\ hd_error t = Some (ESend (the_send amount)) /\
+      (o = Ok tt <-> exists h, s = SHash h /\ w = WReceipt 1).
+  Proof.
+    intros H. rewrite session_nth, H. cbn [option_map run_request].
+    destruct (register kec cfg reg amount s w) as [t o] eqn:E. exists t, o.
+    pose proof (register_value amount s w) as (H1 & H2 & _). rewrite E in H1, H2. cbn [fst] in H1, H2.
+    pose proof (register_status amount s w) as H3. rewrite E in H3. cbn [snd] in H3.
+    repeat split; auto; apply H3.
   Qed.
 End Facts.
 
